@@ -37,6 +37,8 @@ type dbStep struct {
 	Us         int        `json:"us"`
 	Clients    [][]dbStep `json:"clients"`
 	Flavor     string     `json:"flavor"` // "bytes" (default) or "string"
+	KC         string     `json:"kc"`     // argument class of the key for putx/delx/getx: nil | empty | ok
+	VC         string     `json:"vc"`     // argument class of the value for putx
 }
 
 type dbCase struct {
@@ -135,9 +137,17 @@ func (r *dbRecorder) sink(name string, f map[string]any) {
 	}
 	switch name {
 	case "put":
-		r.emit(M{"t": "put", "k": r.rank(f["k"].([]byte)), "v": valToken(f["v"].([]byte))})
+		if k := r.rank(f["k"].([]byte)); k >= 0 {
+			r.emit(M{"t": "put", "k": k, "v": valToken(f["v"].([]byte))})
+		} else {
+			r.emit(M{"t": "mut-unknown-key", "op": "put"})
+		}
 	case "del":
-		r.emit(M{"t": "del", "k": r.rank(f["k"].([]byte))})
+		if k := r.rank(f["k"].([]byte)); k >= 0 {
+			r.emit(M{"t": "del", "k": k})
+		} else {
+			r.emit(M{"t": "mut-unknown-key", "op": "del"})
+		}
 	case "rotwal":
 		r.emit(M{"t": "rotwal", "wal": f["wal"]})
 	case "rotate":
@@ -324,7 +334,7 @@ func (x *dbExec) step(db *simpledb.DB, s dbStep, g int) (*simpledb.DB, error) {
 	}
 	switch s.Op {
 	case "put":
-		rec.emit(M{"t": "inv", "g": g, "op": "put", "k": s.K, "v": s.V})
+		rec.emit(M{"t": "inv", "g": g, "op": "put", "k": s.K, "v": s.V, "kc": "ok", "vc": "ok", "fl": flavorOf(s)})
 		var err error
 		if s.Flavor == "string" {
 			err = db.Put(string(x.keys[s.K]), string(valBytes(s.V, s.Pad)))
@@ -333,7 +343,7 @@ func (x *dbExec) step(db *simpledb.DB, s dbStep, g int) (*simpledb.DB, error) {
 		}
 		rec.emit(M{"t": "ret", "g": g, "r": okOrErr(err)})
 	case "del":
-		rec.emit(M{"t": "inv", "g": g, "op": "del", "k": s.K, "v": ""})
+		rec.emit(M{"t": "inv", "g": g, "op": "del", "k": s.K, "v": "", "kc": "ok", "vc": "ok", "fl": flavorOf(s)})
 		var err error
 		if s.Flavor == "string" {
 			err = db.Delete(string(x.keys[s.K]))
@@ -350,6 +360,10 @@ func (x *dbExec) step(db *simpledb.DB, s dbStep, g int) (*simpledb.DB, error) {
 			}
 			x.get(db, k, g, s.Flavor)
 		}
+	case "putx", "delx", "getx":
+		x.argClassCall(db, s, g)
+	case "crashcheck":
+		x.crashCheck(db, s)
 	case "rotate":
 		if err := db.VerifRotate(); err != nil {
 			rec.emit(M{"t": "bgfail", "msg": "rotate failed: " + err.Error()})
@@ -383,7 +397,7 @@ func (x *dbExec) step(db *simpledb.DB, s dbStep, g int) (*simpledb.DB, error) {
 }
 
 func (x *dbExec) get(db *simpledb.DB, k int, g int, flavor string) {
-	x.rec.emit(M{"t": "inv", "g": g, "op": "get", "k": k, "v": ""})
+	x.rec.emit(M{"t": "inv", "g": g, "op": "get", "k": k, "v": "", "kc": "ok", "vc": "ok", "fl": "bytes"})
 	var v []byte
 	var err error
 	if flavor == "string" {
@@ -410,4 +424,89 @@ func okOrErr(err error) string {
 		return "ok"
 	}
 	return "err:" + err.Error()
+}
+
+func flavorOf(s dbStep) string {
+	if s.Flavor == "string" {
+		return "string"
+	}
+	return "bytes"
+}
+
+func classBytes(class string, ok []byte) []byte {
+	switch class {
+	case "nil":
+		return nil
+	case "empty":
+		return []byte{}
+	}
+	return ok
+}
+
+// calls with argument classes (nil / empty / ok) through either API flavour (C17)
+func (x *dbExec) argClassCall(db *simpledb.DB, s dbStep, g int) {
+	fl := flavorOf(s)
+	kc, vc := s.KC, s.VC
+	if vc == "" {
+		vc = "ok"
+	}
+	kb := classBytes(kc, x.keys[s.K])
+	evK := s.K
+	if kc != "ok" {
+		// a nil or empty key is the empty key of the universe (if the concretization has one)
+		if ek, ok := x.rec.keyRank[""]; ok {
+			evK = ek
+		}
+	}
+	x.rec.emit(M{"t": "inv", "g": g, "op": s.Op, "k": evK, "v": s.V, "kc": kc, "vc": vc, "fl": fl})
+	r := ""
+	switch s.Op {
+	case "putx":
+		vb := classBytes(vc, valBytes(s.V, s.Pad))
+		if fl == "string" {
+			r = okOrErr(db.Put(string(kb), string(vb)))
+		} else {
+			r = okOrErr(db.PutBytes(kb, vb))
+		}
+	case "delx":
+		if fl == "string" {
+			r = okOrErr(db.Delete(string(kb)))
+		} else {
+			r = okOrErr(db.DeleteBytes(kb))
+		}
+	case "getx":
+		var v []byte
+		var err error
+		if fl == "string" {
+			var sv string
+			sv, err = db.Get(string(kb))
+			v = []byte(sv)
+		} else {
+			v, err = db.GetBytes(kb)
+		}
+		switch {
+		case errors.Is(err, simpledb.ErrNotFound):
+			r = "none"
+		case err != nil:
+			r = "err:" + err.Error()
+		default:
+			r = valToken(v)
+		}
+	}
+	x.rec.emit(M{"t": "ret", "g": g, "r": r})
+}
+
+// crash image of the quiescent database (directory copied while it is open), recovered by a separate process
+func (x *dbExec) crashCheck(db *simpledb.DB, s dbStep) {
+	atomic.AddInt32(&x.rec.barrier, 2)
+	db.VerifFlushBarrier()
+	img := x.dir + "-crashimg"
+	os.RemoveAll(img)
+	if err := copyTree(x.dir, img); err != nil {
+		x.rec.emit(M{"t": "note", "name": "crashcheck copy failed: " + err.Error()})
+		return
+	}
+	defer os.RemoveAll(img)
+	res := readImage(img, x.keys, s.K, 20*time.Second)
+	x.rec.emit(M{"t": "crashobs", "ok": res.Ok, "err": res.Err, "m": res.M})
 }
